@@ -14,9 +14,13 @@ import (
 	edsv1 "github.com/DataDog/extendeddaemonset/api/v1alpha1"
 )
 
-type monC06 struct{ baseMon }
+type monC06 struct {
+	baseMon
+	roleSeen    map[string]string    // replica set -> role in its last sync whose status write went through
+	canarySince map[string]time.Time // replica set -> start of the sync that began its current stint as canary (only when the change of role was witnessed)
+}
 
-func (monC06) Name() string { return "C06" }
+func (*monC06) Name() string { return "C06" }
 
 func latestRestart(p *corev1.Pod) time.Time {
 	var t time.Time
@@ -30,7 +34,8 @@ func latestRestart(p *corev1.Pod) time.Time {
 	return t
 }
 
-func (monC06) TaskEnd(s *Sim, t *Task) {
+func (m *monC06) TaskEnd(s *Sim, t *Task) {
+	defer m.noteRole(t)
 	if t.Ctrl == CtrlERS && t.Panic != nil && !t.Crashed {
 		if v := t.View(); v.EDS != nil && v.ERS != nil && v.Role() == "canary" {
 			s.Violate("C06", "sync-crashed", panicSite(t.Stack), "%s (canary) crashed (%v): neither Canary-Failed nor Canary-Paused can be decided for this canary", t.Label(), t.Panic)
@@ -139,17 +144,26 @@ func (monC06) TaskEnd(s *Sim, t *Task) {
 			}
 		}
 		if af.CanaryTimeout != nil {
+			// "the canary has lasted longer than canaryTimeout": measured from the start of the replica
+			// set's current stint as canary. When its syncs were seen to change role, that is the first
+			// canary-role sync after the change (this very sync, possibly); otherwise the instant recorded
+			// in the Canary condition stands in for it (this very sync if it was not true in the status read).
+			since, running := end, false
 			if cc := ersCond(&v.ERS.Status, edsv1.ConditionTypeCanary); cc != nil && cc.Status == corev1.ConditionTrue {
-				if start.Sub(cc.LastTransitionTime.Time) > af.CanaryTimeout.Duration+band {
-					mustFail = true
-					why = "timeout"
+				since, running = cc.LastTransitionTime.Time, true
+			}
+			ek := t.Key.String()
+			if prev, ok := m.roleSeen[ek]; ok {
+				if prev != "canary" {
+					since, running = end, false
+					s.Stats.NonVacuous["C06.new-canary-stint"]++
+				} else if ws, ok := m.canarySince[ek]; ok {
+					since, running = ws, true
 				}
 			}
-			// measured from the instant the Canary condition became true (this very sync if it was not
-			// true in the status read), not from the creation of the replica set
-			since := end
-			if cc := ersCond(&v.ERS.Status, edsv1.ConditionTypeCanary); cc != nil && cc.Status == corev1.ConditionTrue {
-				since = cc.LastTransitionTime.Time
+			if running && start.Sub(since) > af.CanaryTimeout.Duration+band {
+				mustFail = true
+				why = "timeout"
 			}
 			if end.Sub(since) > af.CanaryTimeout.Duration-band {
 				mayFail = true
@@ -267,7 +281,7 @@ func (monC06) TaskEnd(s *Sim, t *Task) {
 // PostCall: once Canary-Failed is true in the store it stays true while that replica set is the
 // canary - whoever set it (the sync itself or kubectl-eds canary fail), and whatever the
 // overwriting sync had read.
-func (monC06) PostCall(s *Sim, c *Call) {
+func (*monC06) PostCall(s *Sim, c *Call) {
 	t := c.Task
 	if c.Kind != KERS || (c.Verb != "updatestatus" && c.Verb != "patchstatus") || !c.Applied() || c.Pre == nil || c.Out == nil || t.Ctrl != CtrlERS || t.Crashed {
 		return
@@ -316,4 +330,35 @@ func (monC06) PostCall(s *Sim, c *Call) {
 	s.Violate("C07", "failure-erased", "", "%s erased the Canary-Failed condition of the canary replica set %s: the rollback will never happen", t.Label(), post.Name)
 	s.Violate("C19", "obeys", "fail-erased", "%s erased the Canary-Failed condition set by kubectl-eds canary fail on %s", t.Label(), post.Name)
 	s.Violate("C02", "failure-erased", "", "%s erased the Canary-Failed condition of %s: the failed template stays live", t.Label(), post.Name)
+}
+
+// noteRole records in which role a replica set's last recorded sync ran, and when a stint as canary began.
+func (m *monC06) noteRole(t *Task) {
+	if t.Ctrl != CtrlERS || t.Crashed || t.Panic != nil {
+		return
+	}
+	v := t.View()
+	if v.EDS == nil || v.ERS == nil {
+		return
+	}
+	wrote := false
+	for _, c := range v.StatusWrites {
+		if c.Kind == KERS && c.Applied() {
+			wrote = true
+		}
+	}
+	if !wrote {
+		return
+	}
+	if m.roleSeen == nil {
+		m.roleSeen, m.canarySince = map[string]string{}, map[string]time.Time{}
+	}
+	ek := t.Key.String()
+	role := v.Role()
+	if prev, ok := m.roleSeen[ek]; role == "canary" && ok && prev != "canary" {
+		m.canarySince[ek] = t.StartAt
+	} else if role != "canary" {
+		delete(m.canarySince, ek)
+	}
+	m.roleSeen[ek] = role
 }
